@@ -351,9 +351,12 @@ def ruleDateDOW(ts: datetime, date: Time, dow: Time) -> Time:
 # and assume the next date+time in the future
 @rule(predicate("isDOM"))
 def ruleLatentDOM(ts: datetime, dom: Time) -> Time:
-    dm = ts + relativedelta(day=dom.day)
-    if dm <= ts:
-        dm += relativedelta(months=1)
+    # relativedelta(day=N) clips N to the length of the month: take the first month,
+    # from the reference month on, that really has this day
+    for months in range(0, 4):
+        dm = ts + relativedelta(months=months, day=dom.day)
+        if dm.day == dom.day and dm > ts:
+            break
     return Time(year=dm.year, month=dm.month, day=dm.day)
 
 
@@ -367,9 +370,12 @@ def ruleLatentDOW(ts: datetime, dow: Time) -> Time:
 
 @rule(predicate("isDOY"))
 def ruleLatentDOY(ts: datetime, doy: Time) -> Time:
-    dm = ts + relativedelta(month=doy.month, day=doy.day)
-    if dm < ts:
-        dm += relativedelta(years=1)
+    # 29 Feb exists in leap years only (clipped to the 28th otherwise): take the first
+    # year, from the reference year on, that really has this day
+    for years in range(0, 9):
+        dm = ts + relativedelta(years=years, month=doy.month, day=doy.day)
+        if dm.day == doy.day and dm >= ts:
+            break
     return Time(year=dm.year, month=dm.month, day=dm.day)
 
 
